@@ -269,6 +269,8 @@ func runNative(nb *nativeBuild, repoDir string, doc *replayDoc, replayFile strin
 			res.TimedOut = true
 		case strings.HasPrefix(line, "fatal error: all goroutines are asleep"):
 			res.TimedOut = true
+		case strings.HasPrefix(line, "VERIF-DEADLOCK"):
+			res.TimedOut = true
 		case strings.HasPrefix(line, "panic: ") || strings.HasPrefix(line, "fatal error: "):
 			if !res.Panicked {
 				res.Panicked = true
